@@ -668,3 +668,89 @@ fn c16_rpc_dump_v3_9() {
 fn c16_rpc_dump_v4_8_v6() {
     rpc_dump(4, 8, true)
 }
+
+
+// ---- calls with non-empty credentials / verifier (the C16 quantifier: "credential/verifier lengths") ----
+/// 44 + cl + vl byte call over TCP, all fields symbolic, credentials body of cl bytes and
+/// verifier body of vl bytes; parsed whole, as every proper prefix ending at n-1 (must not be
+/// complete yet) and cut in two at `cut`
+fn rpc_tcp_parse_auth(cl: usize, vl: usize, cut: usize) {
+    let mut d: [u8; 64] = kani::any();
+    let n = 44 + cl + vl;
+    d[32] = 0; d[33] = 0; d[34] = 0; d[35] = cl as u8;
+    d[40 + cl] = 0; d[41 + cl] = 0; d[42 + cl] = 0; d[43 + cl] = vl as u8;
+    let mut a = ProtocolState::new();
+    rpc_parse(&mut a, &d[..n]);
+    assert!(matches!(a.state, RpcState::End), "C16: complete call with AUTH bodies not parsed to End");
+    assert!(a.xid == be32(&d[4..8]) && a.program == be32(&d[16..20]) && a.prog_version == be32(&d[20..24]) && a.procedure == be32(&d[24..28]), "C16: xid / program / version / procedure misparsed");
+    assert!(a.creds_flavor == be32(&d[28..32]) && a.verif_flavor == be32(&d[36 + cl..40 + cl]), "C16: AUTH flavors misparsed");
+    let mut c = ProtocolState::new();
+    rpc_parse(&mut c, &d[..n - 1]);
+    assert!(!matches!(c.state, RpcState::End), "C11: call complete before its last byte (over TCP a reply is sent before the request is complete, and again when the rest arrives)");
+    let mut b = ProtocolState::new();
+    rpc_parse(&mut b, &d[..cut]);
+    assert!(!matches!(b.state, RpcState::End), "C11: incomplete call already complete");
+    rpc_parse(&mut b, &d[cut..n]);
+    assert!(matches!(b.state, RpcState::End), "C11: split call not parsed to End");
+    assert!(a.xid == b.xid && a.program == b.program && a.prog_version == b.prog_version && a.procedure == b.procedure
+        && a.message_type == b.message_type && a.rpc_version == b.rpc_version && a.last_frag == b.last_frag && a.frag_len == b.frag_len
+        && a.creds_flavor == b.creds_flavor && a.verif_flavor == b.verif_flavor && a.cur_len == b.cur_len && a.data_len == b.data_len
+        && a.creds_data.len() == b.creds_data.len() && a.verif_data.len() == b.verif_data.len() && a.payload.len() == b.payload.len(),
+        "C11: parsed call depends on segmentation");
+    kani::cover!(true, "call parsed");
+    std::mem::forget(a);
+    std::mem::forget(b);
+    std::mem::forget(c);
+}
+
+//# harness: c16_rpc_tcp_parse_creds8_cut38
+//# props: C16 C11 C01
+//# tier: quick
+//# encodes: proto::rpc::rpc_parse, read_u32, read_string
+//# bounds: 52-byte ONC-RPC call over TCP, all fields symbolic, credentials body of 8 bytes, verifier body of 0 bytes; parsed whole, without its last byte, and cut after byte 38 (inside the credentials body)
+//# out: bodies longer than 8 bytes; XDR padding of bodies whose length is not a multiple of 4
+//# cover: call parsed
+#[kani::proof]
+#[kani::unwind(66)]
+fn c16_rpc_tcp_parse_creds8_cut38() {
+    rpc_tcp_parse_auth(8, 0, 38)
+}
+
+//# harness: c16_rpc_tcp_parse_verif4_cut46
+//# props: C16 C11 C01
+//# tier: quick
+//# encodes: proto::rpc::rpc_parse, read_u32, read_string
+//# bounds: 48-byte ONC-RPC call over TCP, all fields symbolic, credentials body of 0 bytes, verifier body of 4 bytes; parsed whole, without its last byte, and cut after byte 46 (inside the verifier body)
+//# out: bodies longer than 8 bytes; XDR padding of bodies whose length is not a multiple of 4
+//# cover: call parsed
+#[kani::proof]
+#[kani::unwind(66)]
+fn c16_rpc_tcp_parse_verif4_cut46() {
+    rpc_tcp_parse_auth(0, 4, 46)
+}
+
+//# harness: c16_rpc_tcp_parse_creds8_verif4_cut41
+//# props: C16 C11 C01
+//# tier: thorough
+//# encodes: proto::rpc::rpc_parse, read_u32, read_string
+//# bounds: 56-byte ONC-RPC call over TCP, all fields symbolic, credentials body of 8 bytes, verifier body of 4 bytes; parsed whole, without its last byte, and cut after byte 41 (inside the credentials body)
+//# out: bodies longer than 8 bytes; XDR padding of bodies whose length is not a multiple of 4
+//# cover: call parsed
+#[kani::proof]
+#[kani::unwind(66)]
+fn c16_rpc_tcp_parse_creds8_verif4_cut41() {
+    rpc_tcp_parse_auth(8, 4, 41)
+}
+
+//# harness: c16_rpc_tcp_parse_creds4_verif8_cut53
+//# props: C16 C11 C01
+//# tier: thorough
+//# encodes: proto::rpc::rpc_parse, read_u32, read_string
+//# bounds: 56-byte ONC-RPC call over TCP, all fields symbolic, credentials body of 4 bytes, verifier body of 8 bytes; parsed whole, without its last byte, and cut after byte 53 (inside the verifier body)
+//# out: bodies longer than 8 bytes; XDR padding of bodies whose length is not a multiple of 4
+//# cover: call parsed
+#[kani::proof]
+#[kani::unwind(66)]
+fn c16_rpc_tcp_parse_creds4_verif8_cut53() {
+    rpc_tcp_parse_auth(4, 8, 53)
+}
